@@ -557,6 +557,15 @@ func (in *Interp) divmodConst(x, y *T, signed bool) (q, r *T, ok bool) {
 			}
 		}
 	}
+	// x = C + v with v small enough that the quotient does not depend on v
+	if x.op == OAdd {
+		for i := 0; i < 2; i++ {
+			cst, v := x.args[i], x.args[1-i]
+			if cst.IsConst() && cst.k < lim && v.ub < lim && cst.k+v.ub < lim && cst.k/c == (cst.k+v.ub)/c {
+				return tb.BV(x.w, cst.k/c), tb.Add(tb.BV(x.w, cst.k%c), v), true
+			}
+		}
+	}
 	key := fmt.Sprintf("divmod:%d:%d:%v", x.id, c, signed)
 	if v, found := in.ghost[key]; found {
 		p := v.(Tuple)
